@@ -6,10 +6,10 @@
    scanner will still deliver), (S1-S3) the SCANNER model over the character-level input [str_ops].
    The full property -- every ill-formed character stream is rejected by the pipeline -- is [C06_full]; it is stated,
    NOT proved, and in fact refuted for the faithful model (and the code) by four accepted ill-formed texts
-   ([C06_full_refuted]; known_findings_c06.jsonl).  What is proved are the rejection mechanisms listed below. *)
+   ([C06_full_refuted], [C06_full_for_refuted]; known_findings_c06.jsonl).  What is proved are the rejection mechanisms listed below. *)
 From Coq Require Import List NArith ZArith Bool.
 Import ListNotations.
-Require Import Parser SBase SPrim SDir SScalar SFetch Pipe C02run DocReset RejectProofs.
+Require Import Parser SBase SPrim SDir SScalar SFetch Pipe C02base C02run DocReset RejectProofs.
 Open Scope N_scope.
 
 (* ================================================================================================ *)
@@ -65,6 +65,29 @@ Print Assumptions C06_sequence_end_behind_mapping_start_rejected.
 Theorem C06_accepted_implies_balanced_refuted : ~ accepted_implies_balanced.
 Proof. exact accepted_implies_balanced_refuted. Qed.
 Print Assumptions C06_accepted_implies_balanced_refuted.
+
+(* What IS true globally, for EVERY token list, scanner ending and fuel (a second invariant through all 21 parser states,
+   Proofs/RejectProofs.v): an accepted stream obeys [bal'] = [flow_balanced] with that one defect built in (inside a flow
+   sequence a Key token directly followed by FlowSequenceEnd swallows the closer) ... *)
+Theorem C06_accepted_implies_balanced_modulo_swallowed_closer : forall toks keep se fuel,
+  snd (parse_all fuel (init_parser toks keep) se []) = PDone -> bal' toks [] = true.
+Proof. exact accepted_implies_balanced_modulo_swallowed_closer. Qed.
+Print Assumptions C06_accepted_implies_balanced_modulo_swallowed_closer.
+
+(* ... so every accepted stream without a Key token directly followed by FlowSequenceEnd has balanced, properly
+   matched flow brackets up to StreamEnd: no flow collection open at the end, no closer of the wrong kind, no stray
+   closer -- whatever else the stream contains *)
+Theorem C06_accepted_implies_balanced_without_swallowed_closer : forall toks keep se fuel,
+  no_key_then_closer toks = true ->
+  snd (parse_all fuel (init_parser toks keep) se []) = PDone -> flow_balanced toks [] = true.
+Proof. exact accepted_implies_balanced_without_swallowed_closer. Qed.
+Print Assumptions C06_accepted_implies_balanced_without_swallowed_closer.
+
+(* the one-step form: from any state satisfying C02's invariant, goodness of the successor implies goodness of [p] *)
+Theorem C06_step_keeps_bracket_invariant : forall p g,
+  C02base.Inv p g -> first_ok p -> p_state p <> SEnd -> bpost (Good p) (state_machine p).
+Proof. exact state_machine_bal. Qed.
+Print Assumptions C06_step_keeps_bracket_invariant.
 
 (* ================================================================================================ *)
 (* R3: a second root node; a directive without document end marker                                     *)
@@ -293,10 +316,20 @@ Print Assumptions C06_flow_level_below_limit_increases.
 (* ================================================================================================ *)
 (* The full property and its status                                                                    *)
 (* ================================================================================================ *)
-(* For a specification [ill_formed] of the ill-formed character streams of the statement (the composition of a renderer
-   of well-formed streams with the damage operators of vlib/p_c06.py): the pipeline never reports a complete run. *)
-Definition C06_full (ill_formed : list N -> Prop) : Prop :=
+(* The full property as a closed statement: [damaged] (Proofs/RejectProofs.v) composes a renderer of well-formed one-line
+   flow documents ([render_flow] on [wf_ok] trees: lower-case words, quoted words, sequences, mappings, empty explicit
+   keys) with four damage operators (stray closer, dropped closer, swapped closer, second root node).  Every
+   [damaged] text is ill-formed by construction.  NOT proved; refuted below ([C06_full_refuted]).  The general
+   form, for any specification [ill_formed] of ill-formed character streams (the damage operators of
+   vlib/p_c06.py composed with its generator), is [C06_full_for]. *)
+Definition C06_full : Prop := forall s, damaged s -> snd (run_str s) <> PDone.
+
+Definition C06_full_for (ill_formed : list N -> Prop) : Prop :=
   forall s, ill_formed s -> snd (run_str s) <> PDone.
+
+Theorem C06_full_refuted : ~ C06_full.
+Proof. exact C06_full_flow_fragment_refuted. Qed.
+Print Assumptions C06_full_refuted.
 
 (* four texts that are ill-formed by YAML 1.2.2 (productions quoted in known_findings_c06.jsonl) and accepted *)
 Definition stray_closer_text : list N := [91;32;63;32;93;32;93].                               (* [ ? ] ]            *)
@@ -328,10 +361,10 @@ Theorem C06_multiline_flow_pair_key_rejected_without_mapping :
 Proof. vm_compute. reflexivity. Qed.
 Print Assumptions C06_multiline_flow_pair_key_rejected_without_mapping.
 
-Theorem C06_full_refuted : forall ill_formed,
+Theorem C06_full_for_refuted : forall ill_formed,
   ill_formed stray_closer_text \/ ill_formed long_flow_pair_key_text
   \/ ill_formed flow_continuation_text \/ ill_formed multiline_flow_pair_key_text ->
-  ~ C06_full ill_formed.
+  ~ C06_full_for ill_formed.
 Proof.
   intros ill H HF. destruct H as [H|[H|[H|H]]]; apply (HF _ H).
   - exact C06_stray_closer_accepted.
@@ -339,7 +372,7 @@ Proof.
   - exact C06_flow_continuation_at_block_indentation_accepted.
   - exact C06_multiline_flow_pair_key_accepted.
 Qed.
-Print Assumptions C06_full_refuted.
+Print Assumptions C06_full_for_refuted.
 
 (* ================================================================================================ *)
 (* Examples: one text per damage class through the whole model pipeline (scanner + parser); the verdict,  *)
